@@ -892,6 +892,7 @@ static void MakeCode_F2MC8(void) {
         return;
     }
 
+    OpSize = 0; /* 8 bits unless the instruction says otherwise (MOVW) */
     if (!LookupInstTable(InstTable, OpPart.str.p_str)) {
         WrStrErrorPos(ErrNum_UnknownInstruction, &OpPart);
     }
